@@ -803,8 +803,9 @@ theorem rt_deserResultMetadataP (f : Features) (global noMeta : Bool) (nid : Opt
     cases nid with
     | none => simp
     | some i => simp [(hn i rfl).2.1]
-  simp only [hnot, Bool.false_eq_true, if_false, hch]
-  trace_state
+  simp only [hch]
+  have hnot2 : (nid.isSome && noMeta) = false := by rw [← hch]; exact hnot
+  simp only [hnot2, Bool.false_eq_true, if_false]
   refine rt_bind (rt_tag _ (rt_readIntLength cc hcc)) (rt_bind0 (rt_optRead_false _) ?_)
   have tail : RT (condRead (!noMeta) (optRead global (tag "gts" deserTableSpec) >>= fun gts =>
         deserColSpecs gts cc) [] >>= fun cs =>
